@@ -210,6 +210,11 @@ def c13_part(ctx, rng, quick):
             wl = dict(words=[o("one"), o("two"), o("three")], nolist=0, len=3, cap="one")
             wl.update(sv)
             scen.append(dict(kind="wl", wl=wl, maxTrials=mt, failRateOne=fr, mode="paths", paths=5, maxLeaves=0, tag="separator-recipes", reps=0))
+    # a list with an empty entry (NewWordList keeps it): whatever Generate does with it, it is an error or a password, never a panic
+    for cap in SCHEMES:
+        for ws in (["", "one"], ["one", "", "two"], [""]):
+            scen.append(dict(kind="wl", wl=dict(words=[o(w) for w in ws], nolist=0, len=2, cap=cap, sep="char", sepChar=o("-")), maxTrials=0,
+                             failRateOne=0, mode="tree", paths=0, maxLeaves=2000, tag="empty-word", reps=0))
     files, cells, leaves = run_scenarios(ctx, scen, "c13wl", shards=4)
     verdicts, _ = validate(ctx, files)
     ctx.evaluations += leaves
@@ -270,7 +275,9 @@ def ctor_collision_sequences():
     """Input lists that a process-wide memo of NewWordList keyed on a content fingerprint could confuse (same number of entries and
     same concatenation, different word boundaries), constructed one after the other in ONE process, in both orders."""
     pairs = [(["ab", "c"], ["a", "bc"]), (["zaz", "a", "zb"], ["za", "za", "zb"]), (["Polishpo", "lish", "five"], ["Polish", "polish", "five"]),
-             (["one", "two"], ["on", "etwo"]), (["x y", "z"], ["x", "y z"])]
+             (["one", "two"], ["on", "etwo"]), (["x y", "z"], ["x", "y z"]),
+             # what one construction removed must not be remembered by the next one
+             (["polish", "Polish", "one"], ["Polish", "two"]), (["usa", "Usa", "x"], ["Usa"]), (["a", "a", "b"], ["a", "c"])]
     mk = lambda ws: dict(kind="wl", wl=dict(words=[o(w) for w in ws], nolist=0, len=2, cap="first", sep="char", sepChar=o("-")), maxTrials=0, failRateOne=0,
                          mode="tree", paths=0, maxLeaves=500, tag="ctor-collision", reps=0)
     seqs = []
